@@ -212,11 +212,19 @@ fn run_lc(c: &mut Ctx) {
         let ctr = Point2::new(c.rng.range(-offm, offm), c.rng.range(-offm, offm));
         let dir = gen::unit2(&mut c.rng);
         let nrm = Vector2::new(-dir.y, dir.x);
-        let secant = c.rng.chance(0.6);
-        let dd = if secant { r * c.rng.range(0.0, 1.0 - 1e-6) } else { r * (1.0 + 1e-6 + c.rng.log_range(1e-6, 5.0)) };
+        let kind = c.rng.int(0, 9);
+        // a tangent in general position: the centre distance is r up to a few rounding errors, far
+        // inside the library's absolute tangency tolerance of 1e-10
+        let (dd, name) = if kind < 5 {
+            (r * c.rng.range(0.0, 1.0 - 1e-6), "secant")
+        } else if kind < 8 {
+            (r * (1.0 + 1e-6 + c.rng.log_range(1e-6, 5.0)), "miss")
+        } else {
+            (r, "tangent")
+        };
         let foot = ctr + nrm * (dd * c.rng.sign());
         let (ta, tb) = (c.rng.range(-3.0, 3.0) * r, c.rng.range(-3.0, 3.0) * r);
-        (Circle2::from_point(ctr, r), foot + dir * ta, foot + dir * tb, if secant { "secant" } else { "miss" })
+        (Circle2::from_point(ctr, r), foot + dir * ta, foot + dir * tb, name)
     };
     if (a - b).norm() < 1e-6 * circle.r() {
         return;
